@@ -333,6 +333,31 @@ fn enum_iters(which: u8, max_len: usize) -> Result<u64, String> {
     }
 }
 
+fn iter_consumers() -> Result<(u64, u64), String> {
+    use crate::itermodel::*;
+    let mut t = (0u64, 0u64);
+    let mut add = |x: (u64, u64)| {
+        t.0 += x.0;
+        t.1 += x.1;
+    };
+    add(all_states_de("C19 Color::all()", Color::all, &[Color::White, Color::Black], &|_, _, _, _| Ok(0u64))?);
+    add(all_states_de("C19 Side::all()", Side::all, &[Side::King, Side::Queen], &|_, _, _, _| Ok(0u64))?);
+    add(all_states_de("C19 Piece::all()", Piece::all, &[Piece::Pawn, Piece::Knight, Piece::Bishop, Piece::Rook, Piece::Queen, Piece::King], &|_, _, _, _| Ok(0u64))?);
+    let files: Vec<File> = (0..8).map(|i| File::from_u8(i).unwrap()).collect();
+    let ranks: Vec<Rank> = (0..8).map(|i| Rank::from_u8(i).unwrap()).collect();
+    add(all_states_de("C19 File::all()", File::all, &files, &|n, s, a, b| ord_consumers(n, s, a, b))?);
+    add(all_states_de("C19 Rank::all()", Rank::all, &ranks, &|n, s, a, b| ord_consumers(n, s, a, b))?);
+    let squares: Vec<Pos> = (0..64).map(|i| Pos::from_u8(i).unwrap()).collect();
+    add(all_states_fwd("C19 Pos::all()", Pos::all, &squares, true)?);
+    for i in 0..8u8 {
+        let line: Vec<Pos> = (0..8).map(|k| Pos::from_u8(k * 8 + i).unwrap()).collect();
+        add(all_states_fwd(&format!("C19 File::{:?}.iter()", files[i as usize]), || files[i as usize].iter(), &line, true)?);
+        let line: Vec<Pos> = (0..8).map(|k| Pos::from_u8(i * 8 + k).unwrap()).collect();
+        add(all_states_fwd(&format!("C19 Rank::{:?}.iter()", ranks[i as usize]), || ranks[i as usize].iter(), &line, true)?);
+    }
+    Ok(t)
+}
+
 fn pos_all() -> Result<(), String> {
     // forward-only: next / nth / size_hint against 0..64
     for first in (0..=66usize).chain([255, 256, 257, 320, 65536, 1 << 32, usize::MAX]) {
@@ -505,6 +530,15 @@ fn worker(ctx: &WorkerCtx) -> Result<(), Fail> {
             st.eval(c);
             st.class_n("iterator op lists (front/back/nth/nth_back) compared with slice iterators", c);
         }
+        // every provided iterator method (count, last, nth, fold, try_fold, min, max, ...) and the
+        // adaptors built on them, in every (front, back) consumption state
+        if ctx.mine(9) {
+            let r = guarded(iter_consumers)
+            .unwrap_or_else(Err)
+            .map_err(|d| f(json!({"c19": "iter_consumers"}), d))?;
+            st.eval(r.1);
+            st.class_n("iterator consumption states in which every provided Iterator method was compared with a slice iterator", r.0);
+        }
         st.sample(json!({"move_text": "E2-e4", "parsed": format!("{:?}", ChessMove::from_ascii_bytes(b"E2-e4"))}));
     }
     // byte strings of other lengths and arbitrary UTF-8
@@ -560,6 +594,7 @@ fn replay(v: &Value) -> Result<(), String> {
             }
             Ok(())
         }
+        Some("iter_consumers") => iter_consumers().map(|_| ()),
         Some("enum_iter") => enum_iters(v["which"].as_u64().unwrap_or(0) as u8, v["max_len"].as_u64().unwrap_or(3) as usize).map(|_| ()),
         Some("any") => {
             let s = bytes();
